@@ -132,7 +132,10 @@ _DECIMAL_LITERAL = re.compile(
 def norm_number(n: Union[int, float]) -> Union[int, float]:
     """Keep an integer as int only while a double represents it exactly."""
     if isinstance(n, int) and not -(2**53) <= n <= 2**53:
-        return float(n)
+        try:
+            return float(n)
+        except OverflowError:
+            return float("inf") if n > 0 else float("-inf")
     return n
 
 
